@@ -44,12 +44,15 @@ static long long canary_hits = 0;
 static int cb_depth, in_init;    /* (no nesting while the table is being initialised: its registers are only partly linked then) */
 static unsigned cb_calls;
 static RegisterAtom *decoy[MAXA];
-static void cb_nested(void)
+static void cb_nested(int writing)
 {
     if (cb_depth == 0 && have && !in_init && nr > 0 && (cb_calls++ % 2) == 0) {
         RegisterValue tmp;
+        RegisterHandle h = (RegisterHandle)(cb_calls % (unsigned)nr);
         cb_depth++;
-        (void)register_get(&T, (RegisterHandle)(cb_calls % (unsigned)nr), &tmp);
+        RegisterAccess r = register_get(&T, h, &tmp);
+        /* from a write callback also store the value just read back again (no change of state) */
+        if (writing && r.code == REG_ACCESS_SUCCESS) (void)register_set(&T, h, tmp);
         cb_depth--;
     }
 }
@@ -57,7 +60,7 @@ static RegisterAccess cb_read(const RegisterArea *a, RegisterAtom *dst, Register
 {
     RegisterAccess rv = REG_ACCESS_RESULT_INIT;
     int i = (int)(a - areas);
-    cb_nested();
+    cb_nested(0);
     memcpy(dst, store[i] + off, n * sizeof(RegisterAtom));
     return rv;
 }
@@ -65,7 +68,7 @@ static RegisterAccess cb_write(RegisterArea *a, const RegisterAtom *src, Registe
 {
     RegisterAccess rv = REG_ACCESS_RESULT_INIT;
     int i = (int)(a - areas);
-    cb_nested();
+    cb_nested(1);
     memcpy(store[i] + off, src, n * sizeof(RegisterAtom));
     return rv;
 }
